@@ -94,6 +94,13 @@ def bin_expr_consts(out):
             raise ExtractError("ExprTag::from_u8 does not invert the enum for %s" % name)
         out.append("Definition bin_expr_%s : Z := %d." % (name, val))
     out.append("Definition bin_expr_tag_count : Z := %d." % len(pairs))
+    md = need(re.search(r"const MAX_EXPRESSION_DEPTH: usize = (\w+);", src), "const MAX_EXPRESSION_DEPTH in expression/mod.rs")
+    guard = need(re.search(r"if d\.get\(\) (>=|>) MAX_EXPRESSION_DEPTH", src), "DepthGuard comparison in expression/mod.rs")
+    if not re.search(r"pub fn read_expression<R: Read>\(reader: &mut R\) -> Result<Expression, StorageError> \{\s*let _depth = DepthGuard::enter\(\)\?;", src):
+        raise ExtractError("read_expression no longer starts with the depth guard")
+    # deepest nesting level (1 = outermost call) that is still accepted
+    out.append("(* read_expression: DepthGuard, the deepest accepted nesting level (outermost call = 1) *)")
+    out.append("Definition bin_max_expr_depth : Z := %d." % (num(md.group(1)) + (1 if guard.group(1) == ">" else 0)))
     ops = read(OPS)
     tys = read(TYPES)
     out.append("(* accepted tag bytes of the simple enums (operators.rs, types.rs) *)")
